@@ -65,7 +65,7 @@ var urlFrags = []string{
 }
 
 // urlPrefixes / urlTailFrags: well-formed beginnings and the fragments that matter at the end of a URL.
-var urlPrefixes = []string{"http://e.x/", "http://e.x", "/p", "mailto:a@e.x", "//e.x/p"}
+var urlPrefixes = []string{"http://e.x/", "http://e.x", "/p", "mailto:a@e.x", "//e.x/p", "http:/", "http:", "https:e.x"}
 var urlTailFrags = []string{"?", "#", "/", ".", ":", "@", "a", "=", "&amp;", "%", "%3a", "%0a", "%20", " ", "\u00a0", "\u2003", "\t", "\n", "\\", "é", "[", "]", "&#0;", "\x7f", "+", "%2F", "%2f", "<"}
 
 // dataURIFrags: the data: URI fragment alphabet (C03, C14).
